@@ -108,7 +108,7 @@ func replayOther(o *hx.Out, k string, line []byte) {
 		if err := json.Unmarshal(line, &rec); err != nil {
 			panic(err)
 		}
-		o.Put(runSyncCase(rec.Spec))
+		runSyncCase(o, rec.Spec)
 	case "temp":
 		var rec tempRec
 		if err := json.Unmarshal(line, &rec); err != nil {
